@@ -283,9 +283,10 @@ structure SignCfg where  -- signing-side checks that a malicious signer may skip
   skipCt0 : Bool := false
   skipHint : Bool := false
 
-/-- one iteration of the rejection loop for a given nonce: either the exit that rejected or the signature. -/
+/-- one iteration of the rejection loop for a given nonce: the exit taken, the signature if accepted, and
+the names of the signing-side checks that were skipped (`cfg`) although they would have rejected. -/
 def signAttempt (cfg : SignCfg) (mat : List (List Poly)) (mu rhoPrime : Bytes) (s1 s2 t0 : List Poly) (nonce : Nat) :
-    Exit × Bytes :=
+    Exit × Bytes × List String :=
   let y := (List.range L).map fun i => polyUniformGamma1 shake256 rhoPrime ((L * nonce + i) % 65536)
   let z := y.map ntt
   let w := (matVec mat z).map fun p => polyCAddQ (invNTTToMont (polyReduce p))
@@ -296,29 +297,34 @@ def signAttempt (cfg : SignCfg) (mat : List (List Poly)) (mu rhoPrime : Bytes) (
   let cp := ntt (polyChallenge shake256 ctil)
   let z := (s1.map fun p => invNTTToMont (polyPointwise cp p))
   let z := (List.zipWith polyAdd z y).map polyReduce
-  if !cfg.skipZ && vecChkNorm z (BitVec.ofNat 32 (GAMMA1 - BETA)) then (.zNorm, []) else
+  let zBad := vecChkNorm z (BitVec.ofNat 32 (GAMMA1 - BETA))
+  if !cfg.skipZ && zBad then (.zNorm, [], []) else
   let h := s2.map fun p => invNTTToMont (polyPointwise cp p)
   let w0 := (List.zipWith polySub w0 h).map polyReduce
-  if !cfg.skipW0 && vecChkNorm w0 (BitVec.ofNat 32 (GAMMA2 - BETA)) then (.w0Norm, []) else
+  let w0Bad := vecChkNorm w0 (BitVec.ofNat 32 (GAMMA2 - BETA))
+  if !cfg.skipW0 && w0Bad then (.w0Norm, [], []) else
   let h := t0.map fun p => polyReduce (invNTTToMont (polyPointwise cp p))
-  if !cfg.skipCt0 && vecChkNorm h (BitVec.ofNat 32 GAMMA2) then (.ct0Norm, []) else
+  let ctBad := vecChkNorm h (BitVec.ofNat 32 GAMMA2)
+  if !cfg.skipCt0 && ctBad then (.ct0Norm, [], []) else
   let w0 := List.zipWith polyAdd w0 h
   let hint := List.zipWith polyMakeHint w0 w1
   let n := (hint.map hintWeight).foldl (· + ·) 0
-  if !cfg.skipHint && n > OMEGA then (.hintCount, []) else
-  (.accept, packSig ctil z hint)
+  let hBad := decide (n > OMEGA)
+  if !cfg.skipHint && hBad then (.hintCount, [], []) else
+  (.accept, packSig ctil z hint,
+    (if zBad then ["z"] else []) ++ (if w0Bad then ["w0"] else []) ++ (if ctBad then ["ct0"] else []) ++ (if hBad then ["hint"] else []))
 
 def signLoop (cfg : SignCfg) (mat : List (List Poly)) (mu rhoPrime : Bytes) (s1 s2 t0 : List Poly) :
-    Nat → Nat → List Exit → Option (Bytes × List Exit)
+    Nat → Nat → List Exit → Option (Bytes × List Exit × List String)
   | 0, _, _ => none
   | fuel+1, nonce, exits =>
     match signAttempt shake256 cfg mat mu rhoPrime s1 s2 t0 nonce with
-    | (.accept, sig) => some (sig, (Exit.accept :: exits).reverse)
-    | (e, _) => signLoop cfg mat mu rhoPrime s1 s2 t0 fuel (nonce+1) (e :: exits)
+    | (.accept, sig, viol) => some (sig, (Exit.accept :: exits).reverse, viol)
+    | (e, _, _) => signLoop cfg mat mu rhoPrime s1 s2 t0 fuel (nonce+1) (e :: exits)
 
 /-- `cryptoSignSignature` (deterministic): signature and the sequence of rejection-loop exits.
 `none` only if the fuel (1000 attempts) is exhausted. -/
-def signDetached (cfg : SignCfg) (sk msg : Bytes) : Option (Bytes × List Exit) :=
+def signDetached (cfg : SignCfg) (sk msg : Bytes) : Option (Bytes × List Exit × List String) :=
   let rho := sk.take 32
   let key := (sk.drop 32).take 32
   let tr := (sk.drop 64).take 32
